@@ -181,6 +181,7 @@ type Case struct {
 	Harness string          `json:"harness"`
 	Nondets []interp.Nondet `json:"nondets"`
 	Tier    int             `json:"tier"`
+	Repeat  int             `json:"repeat"`
 }
 
 type NativeResult struct {
@@ -290,7 +291,7 @@ func hasTier(h HarnessSpec, tier string) bool {
 func configureEngine() {
 	interp.InitAllow = []string{"metacontroller/"}
 	// generated clientset/informer packages build REST codecs in their initialisers
-	interp.InitDeny = []string{"metacontroller/pkg/client/generated/"}
+	interp.InitDeny = []string{"metacontroller/pkg/client/generated/", "metacontroller/pkg/metrics"}
 	interp.InitAllowExact = map[string]bool{
 		"k8s.io/client-go/util/retry": true,
 	}
@@ -479,7 +480,7 @@ func cmdRun(args []string) int {
 		for _, lb := range labels {
 			vs := byLabel[lb]
 			for i := 0; i < len(vs) && i < 3; i++ {
-				cases = append(cases, Case{Harness: h.Fn, Nondets: vs[i].Nondets, Tier: tierN})
+				cases = append(cases, Case{Harness: h.Fn, Nondets: vs[i].Nondets, Tier: tierN, Repeat: 12})
 				refs = append(refs, ref{label: lb, v: &vs[i]})
 			}
 		}
@@ -570,7 +571,11 @@ func cmdRun(args []string) int {
 					v = &byLabel[lb][0]
 				} else {
 					ev.Spurious++
-					fmt.Printf("SPURIOUS property=%s harness=%s label=%q: solver model did not reproduce against the native build (engine/model imprecision; not reported)\n", id, h.Fn, lb)
+					d := byLabel[lb][0].Detail
+					if len(d) > 700 {
+						d = d[:700]
+					}
+					fmt.Printf("SPURIOUS property=%s harness=%s label=%q: solver model did not reproduce against the native build (engine/model imprecision; not reported) %s\n", id, h.Fn, lb, d)
 					ev.ViolLabels[lb] = "spurious"
 					continue
 				}
@@ -757,7 +762,7 @@ func cmdReplay(args []string) int {
 	}
 	ld := load([]string{rf.Pkg})
 	pkg := ld.pkgs[rf.Pkg]
-	res, out, err := nativeRun(rf.Pkg, pkg.Pkg.Name(), harnessFuncs(pkg), []Case{{Harness: rf.Violation.Harness, Nondets: rf.Violation.Nondets, Tier: rf.Tier}})
+	res, out, err := nativeRun(rf.Pkg, pkg.Pkg.Name(), harnessFuncs(pkg), []Case{{Harness: rf.Violation.Harness, Nondets: rf.Violation.Nondets, Tier: rf.Tier, Repeat: 12}})
 	if err != nil {
 		fmt.Println(out)
 		fatal("%v", err)
